@@ -118,6 +118,7 @@ func cmdCheck(args []string) int {
 	workers := fs.Int("workers", 0, "number of workers")
 	only := fs.String("only", "", "run only this harness func")
 	noReplay := fs.Bool("noreplay", false, "skip native replay (debug)")
+	noEvidence := fs.Bool("noevidence", false, "do not write evidence/<property>.json (model validation specs)")
 	budget := fs.Int("budget", 0, "time budget in seconds (overrides spec)")
 	cpuprof := fs.String("cpuprofile", "", "write cpu profile")
 	fs.Parse(args)
@@ -291,7 +292,9 @@ func cmdCheck(args []string) int {
 	}
 	_ = nativeConc
 	_ = interpOnly
-	writeEvidence(spec, *tier, seed, all, known, inconclusive, len(violLines), len(kfLines), replays, time.Since(start).Seconds(), loadS, nw, func(h string) map[string]int { return infos[h].params })
+	if !*noEvidence {
+		writeEvidence(spec, *tier, seed, all, known, inconclusive, len(violLines), len(kfLines), replays, time.Since(start).Seconds(), loadS, nw, func(h string) map[string]int { return infos[h].params })
+	}
 	if exit == 0 {
 		fmt.Printf("OK property=%s tier=%s\n", spec.Property, *tier)
 	}
